@@ -21,6 +21,9 @@ type File interface {
 	Name() string
 	Stat() (os.FileInfo, error)
 	Sync() error
+	Truncate(size int64) error
+	Seek(offset int64, whence int) (int64, error)
+	WriteAt(b []byte, off int64) (int, error)
 }
 
 // Env owns every source of nondeterminism the stack code can see.
@@ -34,6 +37,7 @@ type Env interface {
 	ReadDir(dir string) ([]os.FileInfo, error)
 	Stat(name string) (os.FileInfo, error)
 	Link(oldname, newname string) error
+	Truncate(name string, size int64) error
 	Now() time.Time
 	Sleep(d time.Duration)
 	Rand63() int64
